@@ -46,6 +46,17 @@ fn run_instr(name: &str, iargs: &[&str], args: &[P]) -> String {
     out
 }
 
+/// BuiltInFunction variant by its Debug name (the variant the real `Primitive::lookup` dispatched to)
+fn variant_by_name(name: &str) -> Option<crate::function::BuiltInFunction> {
+    use crate::function::BuiltInFunction as B;
+    let all = [
+        B::GenericToInt, B::GenericToBigint, B::GenericToByte, B::GenericToFloat, B::GenericAbs, B::GenericSqrt, B::GenericPow, B::GenericPowf,
+        B::FloatFPart, B::FloatIPart, B::FloatRound, B::FloatFloor, B::FloatCeil, B::ByteToAscii, B::StrParseInt, B::StrParseIntRadix,
+        B::StrParseBigint, B::StrParseBigintRadix, B::StrParseBool, B::StrParseFloat, B::StrParseByte, B::GenericToStr,
+    ];
+    all.into_iter().find(|b| format!("{:?}", b) == name)
+}
+
 /// run a built-in method through the real `BuiltInFunction::run` (receiver and arguments on the operand stack)
 fn run_builtin(method: &str, args: &[P]) -> String {
     use crate::function::BuiltInFunction as B;
@@ -64,7 +75,17 @@ fn run_builtin(method: &str, args: &[P]) -> String {
         "floor" => B::FloatFloor,
         "ceil" => B::FloatCeil,
         "to_ascii" => B::ByteToAscii,
-        _ => panic!("builtin {method}"),
+        "parse_int" => B::StrParseInt,
+        "parse_int_radix" => B::StrParseIntRadix,
+        "parse_bigint" => B::StrParseBigint,
+        "parse_bigint_radix" => B::StrParseBigintRadix,
+        "parse_bool" => B::StrParseBool,
+        "parse_float" => B::StrParseFloat,
+        "parse_byte" => B::StrParseByte,
+        other => match variant_by_name(other) {
+            Some(b) => b,
+            None => panic!("builtin {method}"),
+        },
     };
     let function = Function::new(Weak::new(), "verif".to_string(), Box::new([]));
     let stack = Rc::new(RefCell::new(Stack::new()));
@@ -144,7 +165,31 @@ fn opcode_table() -> String {
     format!("OK Other {}", parts.join(","))
 }
 
+/// which built-in each method name resolves to on a receiver of the given kind (Primitive::lookup): "name=Variant,.."
+fn lookup_table(recv: &P) -> String {
+    const NAMES: &[&str] = &[
+        "pow", "powf", "sqrt", "to_int", "to_bigint", "to_byte", "to_float", "abs", "to_ascii", "fpart", "ipart", "round", "floor", "ceil",
+        "to_str", "len", "substring", "contains", "index_of", "reverse", "insert", "replace", "delete", "parse_int", "parse_int_radix",
+        "parse_bigint", "parse_bigint_radix", "parse_bool", "parse_float", "parse_byte", "split", "chars",
+    ];
+    let mut parts = vec![];
+    for name in NAMES {
+        let r = match recv.clone().lookup(name) {
+            Ok(Ok(pair)) => match &*pair.primitive() {
+                P::BuiltInFunction(b) => format!("{:?}", **b),
+                _ => "NotABuiltin".to_string(),
+            },
+            _ => "None".to_string(),
+        };
+        parts.push(format!("{}={}", name, r));
+    }
+    format!("OK Other {}", parts.join(","))
+}
+
 pub fn eval_ext(op: &str, args: &[P]) -> String {
+    if op == "T:lookup" {
+        return lookup_table(&args[0]);
+    }
     if op == "T:opcodes" {
         return opcode_table();
     }
